@@ -160,6 +160,7 @@ Definition all_vap (c : ctx) (s : vst) : vst := write2 c (zeros c) (molv c) s.
 Definition all_liq (c : ctx) (s : vst) : vst := write2 c (molv c) (zeros c) s.
 (* set_flows(vapor_mol, liquid_mol, index, v, mol_vle) *)
 Definition set_flows (c : ctx) (v : vec) (s : vst) : vst :=
+  let v := fit (length (molv c)) v in      (* shape contract of numpy fancy assignment *)
   write2 c (vsub (molv c) v) v s.
 
 (* _solve_v, fixed-point method: mask = v > mol; v[mask] = mol[mask]; v[v < 0] = 0 *)
@@ -552,7 +553,8 @@ Record lle_oracle := mklo {
   lo_K : vec;               (* cached self._K *)
   lo_phi : Q;               (* phase_fraction(z, K, phi) *)
   lo_molL : vec;            (* solve_lle_liquid_mol(z, T, ...) *)
-  lo_swap : bool            (* outcome of the top_chemical comparison *)
+  lo_top : option nat;      (* index of top_chemical in the package, if given *)
+  lo_mw : vec               (* chemicals.MW *)
 }.
 
 (* chemicals.get_lle_indices(mol.nonzero_keys()) *)
@@ -583,7 +585,23 @@ Definition lle_call (islle : list bool) (o : lle_oracle) (s : lst) : res lst :=
          let mL := fit n (lo_molL o) in
          Ok (vsub z mL, mL));
     let (ml, mL) := lL : vec * vec in
-    let (ml, mL) := if lo_swap o then (mL, ml) else (ml, mL) in
+    let swap :=
+      match lo_top o with
+      | None => false
+      | Some t =>
+        match pos t ix with
+        | None => false                                  (* top_chemical not among the LLE chemicals: pass *)
+        | Some p =>
+          let MW := gather ix (lo_mw o) in
+          let mass_L := vmul mL MW in
+          let mass_l := vmul ml MW in
+          let ML := qsum mass_L in
+          let Ml := qsum mass_l in
+          if nzb ML && nzb Ml then qltb (nthq mass_L p / ML) (nthq mass_l p / Ml)
+          else nzb Ml
+        end
+      end in
+    let (ml, mL) := if swap then (mL, ml) else (ml, mL) in
     Ok (mklst (scatter ix (vscale F ml) zero) (scatter ix (vscale F mL) pooled))
   else Ok (mklst zero pooled).
 
@@ -625,6 +643,15 @@ Definition sle_H_chemical (j : nat) (H Tm H_liq H_sol Tsolve : Q) (s : sst) : re
   else
     let L := (H - H_sol) / (H_liq - H_sol) in
     Ok (mksst (upd (s_l s) j (L * msol)) (upd (s_s s) j (msol - L * msol)) Tm).
+
+(* ---------- a property package that is linear in the flows (stub of the harness; the ideal
+   mixture has this structure for H) ---------- *)
+Definition lin_row (h c : vec) (T : Q) (r : vec) : Q :=
+  Qred (qsum (map2 (fun x hc => x * hc) r (map2 (fun hk ck => hk + ck * (T - 300)) h c))).
+Definition lin_xH (hl hg cl cg : vec) (s : vst) (T : Q) : Q :=
+  lin_row hl cl T (liq s) + lin_row hg cg T (vap s) + qsum (map (lin_row hl cl T) (oth s)).
+Definition lin_Hp (hl hg cl cg : vec) (gas : bool) (mol : vec) (T : Q) : Q :=
+  if gas then lin_row hg cg T mol else lin_row hl cl T mol.
 
 (* ---------- comparison helpers for the correspondence files ---------- *)
 Definition vst_eqb (a b : vst) : bool :=
